@@ -70,6 +70,7 @@ type S struct {
 	replies  map[string]replyRec // payload -> where/when the server answered
 	downFrom, downTo time.Duration
 	realPeer bool
+	bigCalls bool
 	downs    [][2]time.Duration // further windows in which the endpoint was not reachable
 	think    map[string]time.Duration // payload -> time the server took before answering
 }
@@ -99,6 +100,13 @@ func (s *S) Run(c *scen.Ctx) {
 	simnet.Cfg.Fragment = simrt.Draw(2, "c11.frag") == 1
 	simnet.Cfg.Delay = simrt.Draw(3, "c11.delay") == 2
 	s.timeout = 3000
+	// large requests through small socket buffers: a write can be cut short by the peer's death
+	s.bigCalls = !s.realPeer && simrt.Draw(5, "c11.bigcalls") == 4
+	if s.bigCalls {
+		simnet.Cfg.SmallBufs = true
+		simnet.Cfg.Delay = false
+		c.Count("probe.large_requests", 1)
+	}
 	// the client's own idle time-out: a connection with a request waiting for its answer is in use
 	idle := []time.Duration{0, 0, time.Second, 2 * time.Second}[simrt.Draw(4, "c11.clientidle")]
 	c.Describe("client_idle_timeout", idle.String())
@@ -157,6 +165,9 @@ func (s *S) Run(c *scen.Ctx) {
 			defer wg.Done()
 			for k := 0; k < per; k++ {
 				cl := &call{caller: ci, k: k, payload: []byte(fmt.Sprintf("c11-%d-%d", ci, k))}
+				if s.bigCalls && simrt.Draw(3, "c11.big") == 2 {
+					cl.payload = append(cl.payload, bytes.Repeat([]byte{'-'}, 60000+1000*simrt.Draw(120, "c11.biglen"))...)
+				}
 				s.mu.Lock()
 				s.calls = append(s.calls, cl)
 				s.mu.Unlock()
@@ -217,6 +228,20 @@ func (s *S) onAccept(c *scen.Ctx, sc *world.SrvConn) {
 		p.kind = "notice-then-close"
 		p.after = 1 + simrt.Draw(3, "c11.after")
 		p.noticeGap = ms([]int{0, 5, 200, 700}[simrt.Draw(4, "c11.noticegap")])
+	}
+	if s.bigCalls && simrt.Draw(3, "c11.diemid") == 2 {
+		// this connection's peer dies while a large request is still arriving
+		sc.OnPartial = func(sc *world.SrvConn, buffered int) bool {
+			if buffered < 9000 {
+				return false
+			}
+			c.Count("fault.server_dies_mid_request", 1)
+			s.mu.Lock()
+			p.closed = true
+			s.mu.Unlock()
+			simrt.Event("server dies on conn#%d with %d bytes of a request read", sc.ID, buffered)
+			return true
+		}
 	}
 	s.mu.Lock()
 	s.plans[sc.ID] = p
